@@ -9,6 +9,7 @@ import (
 	_ "verifharness/props/c11"
 	_ "verifharness/props/c12"
 	_ "verifharness/props/c14"
+	_ "verifharness/props/c16"
 	_ "verifharness/props/c17"
 	_ "verifharness/props/c19"
 	_ "verifharness/props/c20"
